@@ -1,6 +1,6 @@
 use crate::diagnostic_emitter::MosResult;
 use crate::impl_request_handler;
-use crate::lsp::{LspContext, RequestHandler};
+use crate::lsp::{to_path, LspContext, RequestHandler};
 use itertools::Itertools;
 use lsp_types::request::SemanticTokensFullRequest;
 use lsp_types::{
@@ -116,7 +116,7 @@ impl RequestHandler<SemanticTokensFullRequest> for SemanticTokensFullRequestHand
         params: SemanticTokensParams,
     ) -> MosResult<Option<SemanticTokensResult>> {
         if let Some(tree) = &ctx.tree {
-            let path = params.text_document.uri.to_file_path().unwrap();
+            let path = to_path(&params.text_document.uri);
             if let Some(file) = tree.try_get_file(&path) {
                 let semtoks = emit_semantic_ast(&file.tokens);
                 let data = to_deltas(&tree.code_map, semtoks);
